@@ -122,7 +122,7 @@ func coldChildMain() bool {
 // coldPhase: the cold-start oracle on case c (own = its own concatenation); "" = nothing seen
 func coldPhase(c *Case, own func() string) (why string, lost int) {
 	key := concKey(c)
-	if w, ok := concFailed[key]; ok {
+	if w, ok := coldFailed[key]; ok {
 		return w, 0
 	}
 	exe, err := os.Executable()
@@ -164,7 +164,7 @@ func coldPhase(c *Case, own func() string) (why string, lost int) {
 		}
 	}
 	if why != "" {
-		concFailed[key] = why
+		coldFailed[key] = why
 		if c.Cold < coldReplayProcs {
 			c.Cold = coldReplayProcs
 		}
@@ -172,13 +172,18 @@ func coldPhase(c *Case, own func() string) (why string, lost int) {
 	return why, lost
 }
 
+// coldFailed: what the cold-start phase reported for a case of this process (like concFailed of conc.go: the failure
+// depends on the interleaving, so what was observed once is reported again when lib.Main re-runs the case, and the
+// case is not minimised)
+var coldFailed = map[string]string{}
+
 // coldRunChild: one fresh process.  ok = false: the child was lost (not started, timed out, unreadable output,
 // died of something that is not the concatenation's doing) - skipped, never an alarm.
 func coldRunChild(exe string, body []byte) (out coldOut, died string, ok bool) {
 	ctx, cancel := context.WithTimeout(context.Background(), 60*time.Second)
 	defer cancel()
 	cmd := exec.CommandContext(ctx, exe)
-	cmd.Env = append(os.Environ(), coldEnv+"=1")
+	cmd.Env = append(coldChildEnv(), coldEnv+"=1")
 	cmd.Stdin = bytes.NewReader(body)
 	var so, se bytes.Buffer
 	cmd.Stdout, cmd.Stderr = &so, &se
@@ -197,4 +202,18 @@ func coldRunChild(exe string, body []byte) (out coldOut, died string, ok bool) {
 		return out, "", false
 	}
 	return out, "", true
+}
+
+// coldChildEnv: this process's environment; a binary built with the race detector sleeps a second when it exits
+// (GORACE atexit_sleep_ms, there to let other goroutines report) - the child has waited for all of its goroutines,
+// so that is switched off (the other GORACE settings, the log path of the reports among them, are kept)
+func coldChildEnv() []string {
+	env := os.Environ()
+	for i, kv := range env {
+		if strings.HasPrefix(kv, "GORACE=") {
+			env[i] = kv + " atexit_sleep_ms=0"
+			return env
+		}
+	}
+	return append(env, "GORACE=atexit_sleep_ms=0")
 }
